@@ -66,8 +66,9 @@ func limitedReadAll(reader io.Reader) ([]byte, error) {
 func New(timeout time.Duration) *StrictHTTPClient {
 	return &StrictHTTPClient{
 		client: &http.Client{
-			Transport: SafeHttpTransport,
-			Timeout:   timeout,
+			Transport:     SafeHttpTransport,
+			Timeout:       timeout,
+			CheckRedirect: checkRedirect,
 		},
 	}
 }
@@ -77,8 +78,9 @@ func New(timeout time.Duration) *StrictHTTPClient {
 func NewWithCache(timeout time.Duration) *StrictHTTPClient {
 	return &StrictHTTPClient{
 		client: &http.Client{
-			Transport: DefaultCachingTransport,
-			Timeout:   timeout,
+			Transport:     DefaultCachingTransport,
+			Timeout:       timeout,
+			CheckRedirect: checkRedirect,
 		},
 	}
 }
@@ -91,14 +93,37 @@ func NewWithTLSConfig(timeout time.Duration, tlsConfig *tls.Config) *StrictHTTPC
 	transport.TLSClientConfig = tlsConfig
 	return &StrictHTTPClient{
 		client: &http.Client{
-			Transport: transport,
-			Timeout:   timeout,
+			Transport:     transport,
+			Timeout:       timeout,
+			CheckRedirect: checkRedirect,
 		},
 	}
 }
 
 type StrictHTTPClient struct {
 	client *http.Client
+}
+
+// checkRedirect is the redirect policy of the clients created by this package.
+// In strict mode a redirect must not leave HTTPS, otherwise only the first request of a redirect chain would be checked.
+func checkRedirect(req *http.Request, via []*http.Request) error {
+	if StrictMode && req.URL.Scheme != "https" {
+		return errors.New("strictmode is enabled, but redirect is not over HTTPS")
+	}
+	if len(via) >= 10 {
+		// same limit as the default policy of http.Client
+		return errors.New("stopped after 10 redirects")
+	}
+	return nil
+}
+
+// WithoutRedirects makes the client return redirect (3xx) responses to the caller instead of following them.
+// It is meant for callers that must receive the response from exactly the URL they requested.
+func (s *StrictHTTPClient) WithoutRedirects() *StrictHTTPClient {
+	s.client.CheckRedirect = func(_ *http.Request, _ []*http.Request) error {
+		return http.ErrUseLastResponse
+	}
+	return s
 }
 
 func (s *StrictHTTPClient) Do(req *http.Request) (*http.Response, error) {
